@@ -414,7 +414,19 @@ func mwRecord(out io.Writer, args []string) error {
 			}
 			// sizes: mostly small (exactly checkable), sometimes around the limits, sometimes large
 			var n1, n2 int
-			switch r := rng.Intn(10); {
+			switch r := rng.Intn(12); {
+			case r >= 10:
+				// one sample exactly at (or one beyond) an exact-method limit, the other tiny: the exact tail is still
+				// cheap to count, so the method switch-over is decided exactly on both sides
+				lim := []int{stats.MannWhitneyExactLimit, stats.MannWhitneyTiesExactLimit}[rng.Intn(2)]
+				big := lim + rng.Intn(3) - 1
+				if big < 1 || big > 60 {
+					big = 1 + rng.Intn(60)
+				}
+				n1, n2 = big, 1+rng.Intn(3)
+				if rng.Intn(2) == 0 {
+					n1, n2 = n2, n1
+				}
 			case r < 5:
 				n1, n2 = rng.Intn(8), rng.Intn(8)
 			case r < 8:
@@ -423,7 +435,11 @@ func mwRecord(out io.Writer, args []string) error {
 				n1, n2 = 1+rng.Intn(*maxSize), 1+rng.Intn(*maxSize)
 			}
 			var span int64
-			switch rng.Intn(4) {
+			spanKind := rng.Intn(4)
+			if n1+n2 > 20 && (n1 <= 3 || n2 <= 3) {
+				spanKind = []int{1, 2, 2}[rng.Intn(3)] // boundary sizes: light ties or none
+			}
+			switch spanKind {
 			case 0:
 				span = 3 // heavy ties
 			case 1:
